@@ -86,6 +86,9 @@ func c10errLines(r *vlib.Rng) string {
 		return r.Pick(base)
 	}
 	row := f.Rows[r.Intn(len(f.Rows))]
+	if len(row.Triggers) == 0 {
+		return r.Pick(base)
+	}
 	t := row.Triggers[r.Intn(len(row.Triggers))]
 	if len(row.Sub) > 0 && r.Chance(2, 3) {
 		t = row.Sub[r.Intn(len(row.Sub))].Trigger
@@ -605,8 +608,15 @@ func c10judge(cs c10case, o c10obs, ans string) (dom bool, fs []c10finding, nont
 	if len(got) > 0 {
 		gotLines = strings.Join(got, ",")
 	}
-	if gotLines != specLines && len(fs) == 0 {
-		add("oracle", "device-lines", "device log %s, specification %s", gotLines, specLines)
+	lineFindings := 0
+	for _, x := range fs {
+		if strings.HasPrefix(x.sig, "device-line:") || strings.HasPrefix(x.sig, "attempts:") {
+			lineFindings++
+		}
+	}
+	if gotLines != specLines && lineFindings == 0 {
+		// e.g. a prompt the device showed (and the patterns accept) was never answered
+		add("oracle", "device-lines", "dialogue %v: the device received the lines %s, the property demands %s", o.kinds, gotLines, specLines)
 	}
 	if want != "nil" && o.outcome != "nil" && (!o.closed || o.closeCalls < 1) {
 		add("oracle", "not-closed", "Open failed with %s but the transport was not closed (Close calls %d)", o.outcome, o.closeCalls)
